@@ -103,9 +103,10 @@ Definition attr_int_value (a : oattr) : res Z :=
   | _ => Err (EPy "TypeError")
   end.
 
-(* AttributesSubsubsection._make_attributes:
-     end = self.offset + self.header.value; seek(attr_start)
-     while tell() != end: yield self.attribute(structs, stream) *)
+(* AttributesSubsubsection._make_attributes (as repaired by fix 8921c0e: own offset, seek per item):
+     end = self.offset + self.header.value; offset = self.attr_start
+     while offset != end:
+         seek(offset); attribute = self.attribute(structs, stream); offset = tell(); yield attribute *)
 Fixpoint make_attributes (ai : attr_impl) (fuel : nat) (le : bool) (img : list Z) (pos end_ : Z)
   : res (list oattr) :=
   if pos =? end_ then Ok [] else
